@@ -12,7 +12,8 @@ def run(out, tier, seed):
                 "each draw index is failed once cleanly and once after a partial fill, plus failing payload/footer encoders; L0 admits only "
                 "an error return after a failed step (no Emit); freshness: N consecutive operations per backend and kind with identical "
                 "inputs, every embedded nonce / salt / ephemeral key / RSA-KEM ciphertext / generated key must be new (L0 `used` set), and "
-                "(Rng.tla) the embedded field must BE the drawn value where the construction says so; "
+                "(Rng.tla) the embedded field must BE the drawn value where the construction says so; thorough: the freshness and wrap "
+                "fault runs are repeated with the drivers compiled in the release profile; "
                 "distinct = distinct injected faults + distinct fresh values; non-trivial = operations with at least one observed draw")
     for cfg in ("MC_Ideal_%s.cfg" % tier, "MC_IdealGen_quick.cfg"):
         r = C.tlc("MC_Ideal", cfg, "mc", "c16-mc", workers=12, timeout=7200, heap="16g")
@@ -28,6 +29,16 @@ def run(out, tier, seed):
         stats[name] = json.loads(p.stdout.strip().splitlines()[-1])
         events, r = trace.validate(out, f, "c16-" + name)
         total_events.append(events)
+    if tier == "thorough":
+        # the same freshness and fault runs on the drivers compiled in the release profile (no debug assertions, no overflow checks):
+        # a draw inside a debug_assert!, or arithmetic that only wraps silently in release, is invisible to a debug build
+        for name, args in (("token-fresh-release", ["tokens", "--mode", "fresh"]), ("wrap-fresh-release", ["paserk", "--mode", "fresh"]),
+                           ("wrap-faults-release", ["paserk", "--mode", "faults"])):
+            f = os.path.join(d, name + ".ndjson")
+            p = C.harness(args + ["--out", f, "--tier", "quick", "--seed", str(seed)], timeout=7200, release=True)
+            stats[name] = json.loads(p.stdout.strip().splitlines()[-1])
+            events, r = trace.validate(out, f, "c16-" + name)
+            total_events.append(events)
     # paseto-v1's RSA paths (getrandom 0.2 / OsRng) under the LD_PRELOAD shim
     shim = os.path.join(C.BUILD, "getrandom_shim.so")
     src = os.path.join(C.HARNESS_DIR, "shim", "getrandom_shim.c")
